@@ -260,3 +260,31 @@ package soyjs
 //@   noterm
 //@   modifies *
 //@   preserves G!github.com/robfig/soy/soyjs.* F!github.com/robfig/soy/ast.*
+
+// the two built-in formatters meet the contract assumed of a JSFormatter: what
+// they return is built from the (identifier) name and fixed text.
+//@ func ES6Identifier
+//@   props C14
+//@   nosafety
+//@   pure
+//@   ensures[identifier-stays-writable;C14] jsok(s) ==> jsok(result)
+//@ func (ES5Formatter).Template
+//@   props C14
+//@   nosafety
+//@   pure
+//@   ensures[writable-when-the-name-is;C14] jsok(name) ==> jsok(result0) && jsok(result1)
+//@ func (ES5Formatter).Call
+//@   props C14
+//@   nosafety
+//@   pure
+//@   ensures[writable-when-the-name-is;C14] jsok(name) ==> jsok(result0)
+//@ func (ES6Formatter).Template
+//@   props C14
+//@   nosafety
+//@   pure
+//@   ensures[writable-when-the-name-is;C14] jsok(name) ==> jsok(result0) && jsok(result1)
+//@ func (ES6Formatter).Call
+//@   props C14
+//@   nosafety
+//@   pure
+//@   ensures[writable-when-the-name-is;C14] jsok(name) ==> jsok(result0)
